@@ -160,7 +160,12 @@ FnFails(e) ==
     \o (IF e.canon \in {"ticks", "now", "rnd", "random", "null"} THEN ""      \* clock / random / NULL is a keyword of the language
         ELSE F(e.eo = "value" /\ e.er.t = e.r.t /\ e.er.s = e.r.s, "calling the function through an expression gives a different result than calling it directly"))
 
-Fails(e) == IF e.op = "fn" THEN FnFails(e) ELSE ""
+\* many draws from one generator state: min24 / max24 = the smallest / largest floor(v * 2^24) among the results
+RndManyFails(e) ==
+  IF e.outcome # "ok" THEN "the function crashed; "
+  ELSE F(e.bad = 0, "Rnd returned an error, nothing or a value that is not a Float")
+    \o F(e.min24 >= 0 /\ e.max24 < 16777216, "Rnd is not in [0,1)")
+Fails(e) == IF e.op = "fn" THEN FnFails(e) ELSE IF e.op = "rndmany" THEN RndManyFails(e) ELSE ""
 Init == l = 1
 Next ==
   /\ l <= Len(Trace)
